@@ -3,6 +3,7 @@ from rules.common import *
 from spec import tables, classify
 
 LEVEL = 'proof'
+FIXTURES = ['F3']
 HR = 'HeaderResult'
 
 
